@@ -755,7 +755,7 @@ func ruleTransactionPairing(c *Ctx, rule string) {
 	del := w.Func("client", "TransactionMap", "Delete")
 	wait := w.Func("client", "Transaction", "WaitForResult")
 	startRtx := w.Func("client", "Transaction", "StartRtxTimer")
-	c.Rule(rule, "insert/delete pairing: in PerformTransaction, on every path from trMap.Insert(key, tr) to a return, one of: tr.WaitForResult() was called; tr.StartRtxTimer was called and the return is on the ignoreResult==true edge; trMap.Delete(key) with the same key was called", 1)
+	c.Rule(rule, "insert/delete pairing: in PerformTransaction (helpers inlined) the insert precedes the first write of the request; on every path from trMap.Insert(key, tr) to a return, one of: tr.WaitForResult() was called; tr.StartRtxTimer was called and the return is on the ignoreResult==true edge; trMap.Delete(key) with the same key was called; the nil-error return on the ignoreResult edge has the timer armed and the entry still in the table", 1)
 	{
 		c.Anchor(rule, "PerformTransaction")
 		isOp := func(in ssa.Instruction) bool {
@@ -771,6 +771,7 @@ func ruleTransactionPairing(c *Ctx, rule string) {
 			waited, armed, deleted bool
 		}
 		bad := ""
+		earlySend := ""
 		var ins *ssa.Call
 		nRet := 0
 		cfg := &ipCfg[st]{w: w}
@@ -784,6 +785,11 @@ func ruleTransactionPairing(c *Ctx, rule string) {
 			}
 			if _, isGo := in.(*ssa.Go); isGo {
 				return s
+			}
+			if ci.Common().IsInvoke() && ci.Common().Method.Name() == "WriteTo" && s.ins == nil {
+				// the request goes out before the transaction is in the table: a response that
+				// is handled before this write returns finds nothing and is thrown away
+				earlySend = "the request is written at " + w.instrPos(in) + " before the transaction is inserted into the table: a response handled during that write is dropped as unknown"
 			}
 			switch ci.Common().StaticCallee() {
 			case insert:
@@ -822,6 +828,11 @@ func ruleTransactionPairing(c *Ctx, rule string) {
 			if !(s.waited || s.deleted || (s.armed && ignore)) {
 				bad = "the return at " + w.instrPos(x) + " leaves the transaction in the table with nobody waiting and no timer armed (or the result not ignored): it stays there for the life of the client"
 			}
+			// a fire-and-forget transaction is retransmitted only while it is in the table with
+			// its timer armed (the releasing Refresh of Close must survive the loss of a datagram)
+			if ignore && isNilConst(w.resolveLoad(x.Results[len(x.Results)-1])) && (!s.armed || s.deleted) {
+				bad = "the ignore-result return at " + w.instrPos(x) + " leaves a transaction that is not retransmitted (timer armed=" + fmt.Sprint(s.armed) + ", removed from the table=" + fmt.Sprint(s.deleted) + "): one lost datagram loses the request"
+			}
 		}
 		explorePaths(cfg, perform, st{})
 		switch {
@@ -829,6 +840,8 @@ func ruleTransactionPairing(c *Ctx, rule string) {
 			c.Bad(rule, fname(perform), "trMap.Insert", w.pos(perform.Pos()), "PerformTransaction no longer inserts into the transaction table: anchor gone")
 		case cfg.Exhausted:
 			c.Bad(rule, fname(perform), "trMap.Insert", w.instrPos(ins), "undecided: path exploration exceeded its budget")
+		case earlySend != "":
+			c.Bad(rule, fname(perform), "trMap.Insert", w.instrPos(ins), earlySend)
 		case bad == "":
 			c.OK(rule, fname(perform), "trMap.Insert", w.instrPos(ins), fmt.Sprintf("%d paths return after the insert: each waited, deleted, or armed+ignore", nRet))
 		default:
